@@ -2,7 +2,7 @@ HOOKS = {
     "guard": "verif",
     "enable": "go build -tags verif (every ./check run builds /repo/cmd with the tag on)",
     "baseline_off_cmd": "cd /repo && GOFLAGS=-mod=mod GOPROXY=off go test -vet=off -count=1 ./...",
-    "source_commits": [],
+    "source_commits": ["1132257"],
     "add_only": True,
 }
 NOTES = ("Every check rebuilds the crd binary from /repo's working tree into a scratch directory, runs the TLA+ models with TLC, "
@@ -54,10 +54,15 @@ CHECKS = {
         note=TB + "; float64 vs rational can only differ within 1e-13 of a half tick, generators stay >= 1/128 tick away except the dedicated exact-half cases",
         technique="TLA+ what-layer (Piece.tla timeline) + TLC validation of decoded SMF ticks, bounded-exhaustive + seeded"),
     "C06": dict(
-        text="For each generated document the real binary is run with --track N and --track 1; TLC requires equal merged bags of (tick, event) and every "
+        text="Writer.tla models the writer's time bookkeeping (pending delta, per-track pending delay, TrackSet.Add as the primitive); TLC checks ClockInv, "
+             "EOTInv and refinement of the single timeline for all call sequences <= L on N = 1..5 tracks, and finds the design-level counterexamples of "
+             "the two named deviations (shared op, dropped trailing rest). Step-level traces of the real midix package (state read through verif hooks after "
+             "every call) are validated against the same actions, with a corrupted-trace self-test. "
+             "For each generated document the real binary is run with --track N and --track 1; TLC requires equal merged bags of (tick, event) and every "
              "track's end-of-track at Total(document) (trailing rests included). N in {2,3,4,7} quick, {2,3,4,5,8,16,32} thorough.",
         note=TB,
-        technique="TLA+ what-layer (Piece.tla) + TLC validation of N-track vs 1-track observations of the real CLI"),
+        technique="TLA+ mechanism model (Writer.tla, exhaustive for N=1..5) refined to the timeline + TLC validation of step-level traces of the real "
+                  "midix writer (verif hooks) and of N-track vs 1-track CLI observations"),
     "C07": dict(
         text="Demands(document, flags) in Piece.tla lists the control events a document requires (tempo/meter/key at instance 1 always, later only explicit "
              "settings, txt/lic/mrk); TLC requires exactly those, at Start(i), with us/quarter = 60e6/bpm (either neighbour), nn/2^dd, sf/mi by "
